@@ -29,11 +29,17 @@
      C08_guard_agree  on the aware dialect a guard that completes ends in exactly that state at
                       exactly that cost (C31_guard; no operator set is cost-exempt without
                       NEW_COST_MODEL)
-   Not proved: the allocator-counter clause (the tree-store machine has no allocator; a guard's
-   full checkpoint restore resets the counts on the allocator model, C12; the composed statement
-   is observed on the implementation by lib/props/c08.py). *)
+     C08_counters     the allocator-counter clause on the allocator models of C12: after enter
+                      (checkpoint) - any guard body that restores only its own checkpoints - leave
+                      (full restore) the arena's three counts are exactly those at guard entry,
+                      i.e. what the unaware node has, which skips the guard without allocating
+                      (= C31_counters; run_program.rs' checkpoint / unconditional restore sites are
+                      pinned by the translator)
+   Not proved: the composition of the interpreter model with the allocator model (observed on the
+   implementation by lib/props/c08.py, which compares the three counts of both dialects). *)
 From Clvm Require Import Model.Machine Model.Dialect Model.OpsUnknown Model.OpsCrypto
   Proofs.MachineGuard Proofs.CryptoWrap2 Proofs.SoftforkSafety.
+From Clvm Require Import Model.Alloc Model.AllocRef Model.AllocHist Proofs.AllocBasics Proofs.AllocSim Proofs.AllocStraddle Proofs.GuardCounters.
 Open Scope N_scope.
 
 Theorem C08_run : forall P flags,
@@ -107,3 +113,20 @@ Print Assumptions C08_op.
 Print Assumptions C08_hiding_guard.
 Print Assumptions C08_guard_agree.
 Print Assumptions C08_witness.
+
+Theorem C08_counters : forall fx limit pre body st_pre st_end,
+  1 <= limit ->
+  let rs := r_final limit pre in
+  let rs1 := fst (r_step rs OCheckpoint) in
+  let rs2 := fst (r_run rs1 body) in
+  let k := N.of_nat (length (r_cps rs2) - length (r_cps rs1)) in
+  let h := pre ++ OCheckpoint :: body ++ [ORestore k] in
+  Forall wf_op2 h ->
+  a_final fx limit pre = Some st_pre -> a_dead st_pre = false -> a_f2 st_pre = false ->
+  (forall st0, a_init limit = Ok st0 -> substr_clean fx st0 pre) ->
+  a_final fx limit h = Some st_end -> a_dead st_end = false -> a_f2 st_end = false ->
+  (forall st0, a_init limit = Ok st0 -> substr_clean fx st0 h) ->
+  body_local (length (r_cps rs1)) rs1 body = true -> r_dead rs2 = false ->
+  a_counts st_end = a_counts st_pre.
+Proof. exact arena_guard_counts. Qed.
+Print Assumptions C08_counters.
